@@ -107,3 +107,115 @@ def refused_nuclide_merge_leaves_the_target_unchanged(ma: int, mb: int, wa0: int
     if try_nuclide_merge(A, B):
         assert same_content(observe(A), beforeA), "refused merge: target unchanged"
         assert same_content(observe(B), beforeB), "refused merge: source unchanged"
+
+
+# ---- library helpers copied from contracts/C10_libmerge.py
+properties = repo("armi.utils.properties")
+LABELS = ["U235AA", "U238AB"]
+KIND_META = ["isotxsMetadata", "gamisoMetadata", "pmatrxMetadata"]
+
+
+def xs_library(kind, labelmask, en, eg, dose, ngroups, w, v):
+    """a real IsotxsLibrary as one of the readers leaves it: kind 0 = ISOTXS (neutron group bounds, velocity, ISOTXS
+    metadata, nuclides with neutron data), 1 = GAMISO (gamma group bounds), 2 = PMATRX (both group structures and dose
+    conversion factors); nuclide labels of labelmask out of LABELS"""
+    lib = IsotxsLibrary()
+    if kind == 0:
+        lib.neutronEnergyUpperBounds = np.array([en, en + 1.0])
+        lib.neutronVelocity = np.array([en, 2.0])
+    elif kind == 1:
+        lib.gammaEnergyUpperBounds = np.array([eg, eg + 1.0])
+    else:
+        lib.neutronEnergyUpperBounds = np.array([en, en + 1.0])
+        lib.gammaEnergyUpperBounds = np.array([eg, eg + 1.0])
+        lib.neutronDoseConversionFactors = np.array([dose, 1.0])
+        lib.gammaDoseConversionFactors = np.array([dose, 2.0])
+    getattr(lib, KIND_META[kind])["numGroups"] = ngroups
+    getattr(lib, KIND_META[kind]).fileNames = ["file%d" % kind]
+    for i in range(2):
+        if bits(labelmask)[i]:
+            lib[LABELS[i]] = nuclide(lib, LABELS[i], [1, 2, 4][kind], w, v)
+    return lib
+
+
+def prop(lib, name):
+    """value of a write-once library property, None when it has not been set (read the way numGroups reads it)"""
+    properties.unlockImmutableProperties(lib)
+    val = getattr(lib, name)
+    properties.lockImmutableProperties(lib)
+    return val
+
+
+PROPS = ["neutronEnergyUpperBounds", "neutronVelocity", "gammaEnergyUpperBounds", "neutronDoseConversionFactors", "gammaDoseConversionFactors"]
+
+
+def observe_library(lib):
+    out = [first(prop(lib, p)) for p in PROPS]
+    for m in KIND_META:
+        out.append(getattr(lib, m)["numGroups"])
+    for lab in LABELS:
+        if lab in lib:
+            o = observe(lib[lab])
+            out.extend(o[:3] + o[6:])  # metadata values and data of the nuclide
+        else:
+            out.extend([None] * 10)
+    return out, lib.nuclideLabels
+
+
+def try_library_merge(a, b):
+    try:
+        a.merge(b)
+        return None
+    except (ImmutablePropertyError, OSError, AttributeError) as e:
+        return e
+
+
+G_LIB = {"ka": (0, 2), "kb": (0, 2), "la": (0, 3), "lb": (0, 3), "ena": [1.0, 2.0, 1.0], "enb": [1.0, 2.0, 1.0], "ega": [1.0, 2.0, 1.0], "egb": [1.0, 2.0, 1.0],
+         "da": [1.0, 2.0, 1.0], "db": [1.0, 2.0, 1.0], "ga": (2, 3), "gb": (2, 3), "w": (0, 1)}
+
+
+@lemma(gen=G_LIB)
+def refused_library_merge_leaves_the_target_unchanged(ka: int, kb: int, la: int, lb: int, ena: float, enb: float, ega: float, egb: float,
+                                                      da: float, db: float, ga: int, gb: int, w: int, x: float, y: float):
+    """IsotxsLibrary.merge, 3 x 3 library kinds x 4 x 4 label sets: whenever the merge raises, the observable content of
+    the target (labels, nuclide data and metadata, library properties, file metadata) is what it was before."""
+    ka, kb = choose(ka, 0, 2), choose(kb, 0, 2)
+    la, lb = choose(la, 0, 3), choose(lb, 0, 3)
+    wv = [w, w, w]
+    A = xs_library(ka, la, ena, ega, da, ga, wv, [x, x, x])
+    B = xs_library(kb, lb, enb, egb, db, gb, wv, [y, y, y])
+    before, labels = observe_library(A)
+    if try_library_merge(A, B) is not None:
+        after, labelsAfter = observe_library(A)
+        assert labelsAfter == labels, "refused merge: no nuclide added"
+        assert same_content(after, before), "refused merge: target unchanged"
+
+
+@lemma(gen={"va": [1.0, 2.0, 3.0], "vb": [1.0, 2.0, 3.0]})
+def library_merge_does_not_depend_on_the_order_velocity(e: float, va: float, vb: float):
+    """two ISOTXS libraries with the same group structure and their own mean neutron velocities: the merged content
+    must not depend on the merge order (or the different velocities must be refused)"""
+    def lib(v):
+        l = IsotxsLibrary()
+        l.neutronEnergyUpperBounds = np.array([e, e + 1.0])
+        l.neutronVelocity = np.array([v, 2.0])
+        return l
+    A, B, A2, B2 = lib(va), lib(vb), lib(va), lib(vb)
+    e1 = try_library_merge(A, B)
+    e2 = try_library_merge(B2, A2)
+    assert (e1 is None) == (e2 is None)
+    if e1 is None:
+        assert eq(prop(A, "neutronVelocity")[0], prop(B2, "neutronVelocity")[0]), "same velocity in either order"
+
+
+@lemma(gen={"g1": (1, 2), "g2": (1, 2), "f1": (0, 1), "c1": (0, 0)})
+def refused_file_metadata_merge_leaves_the_nuclides_unchanged(g1: int, g2: int, f1: int, c1: int, x: float):
+    """NuclideXSMetadata.merge with a file-wide chi: when the merge is refused (different group counts) the nuclides of
+    the holders must be unchanged"""
+    A = file_meta(g1, 0, "LIB-A", np.array([x, 1.0 - x]), ["ISOAA"])
+    B = file_meta(g2, 0, "LIB-B", None, ["ISOAB"])
+    hA, hB = holder(f1, c1), holder(f1, c1)
+    try:
+        A.merge(B, hA, hB, "ISOTXS", OSError)
+    except OSError:
+        assert hA.nuclides[0].isotxsMetadata["chiFlag"] == c1 and hB.nuclides[0].isotxsMetadata["chiFlag"] == c1, "refused: nuclides unchanged"
